@@ -20,7 +20,7 @@ try:
 except FileNotFoundError:
     pass
 hooks = subprocess.check_output(['git','-C','/repo','log','--format=%h %s','--reverse']).decode().splitlines()
-hook_commits = [l.split()[0] for l in hooks if l.split(' ',1)[1].startswith('verif:')]
+hook_commits = [l.split()[0] for l in hooks if l.split(' ',1)[1].startswith(('verif:', 'verif contracts:'))]
 checks = []
 for p in props:
     i = p['id']
@@ -37,12 +37,12 @@ except FileNotFoundError:
 na = [{"property_id": p['id'], "reason": na_reasons.get(p['id'], "not yet under contract in this build of the machinery (see DESIGN.md section 4 for the planned contracts); nothing is claimed")} for p in props if p['id'] not in claimed]
 m = {"version": 1,
  "setup_cmd": "cd /verif/govc && GOFLAGS=-mod=mod GOPROXY=off GOSUMDB=off GOTOOLCHAIN=local go build -o /verif/bin/govc .",
- "hooks": {"guard": "verif", "enable": "-tags verif (hooks: the comment-only contract file /repo/contracts_verif.go and /repo/lemmas_verif.go, three never-called proof harnesses that compose Dump and Restore; nothing else in /repo is guarded)",
+ "hooks": {"guard": "verif", "enable": "-tags verif (hooks: the comment-only contract file /repo/contracts_verif.go and /repo/lemmas_verif.go, four never-called proof harnesses that compose Dump and Restore; nothing else in /repo is guarded)",
            "baseline_off_cmd": "cd /repo && GOFLAGS=-mod=mod go test -json -vet=off -count=1 -timeout 25m ./...",
            "source_commits": hook_commits, "add_only": True},
  "engines": [{"name": "govc", "path": "/verif/govc", "serves_properties": list(claimed.keys()),
               "kind_free_text": "self-written contract verifier for Go: go/packages+go/ssa symbolic execution per path, loop invariants, modular calls, lock invariants with interference, SMT-LIB obligations, replay of counterexamples as in-package tests via go test -overlay"}],
  "checks": checks, "not_applicable": na,
- "notes": "Contracts live in /repo/contracts_verif.go (//go:build verif, comments only). ./check selftest runs the must-fail mutant corpus. Assumed contracts of dependencies are listed per run in evidence.trusted_base."}
+ "notes": "Contracts live in /repo/contracts_verif.go (//go:build verif, comments only). ./check selftest runs the must-fail corpus (selftest mutants and the seeded changes), ./check harmless the corpus of behaviour-preserving edits that must stay green. Assumed contracts of dependencies are listed per run in evidence.trusted_base."}
 json.dump(m, open('/verif/MANIFEST.json', 'w'), indent=1)
 print("claimed:", list(claimed.keys()))
